@@ -3,7 +3,7 @@
    the fate of iteration variables from Gen/EvalTables.v (regenerated from the source on every run). *)
 From Coq Require Import String List ZArith Bool Sorted.
 Import ListNotations.
-Require Import Verif.Eval.Value Verif.Eval.GoFuncs Verif.Eval.Interp Verif.Eval.Tables Verif.Eval.CallProps Verif.Eval.PureProps Verif.Eval.SemProps Verif.Eval.ExtProps Verif.Eval.TotalProps Verif.Gen.EvalTables.
+Require Import Verif.Eval.Value Verif.Eval.GoFuncs Verif.Eval.Interp Verif.Eval.Tables Verif.Eval.CallProps Verif.Eval.PureProps Verif.Eval.SemProps Verif.Eval.ExtProps Verif.Eval.TotalProps Verif.Eval.DispatchProps Verif.Eval.FuelProps Verif.Gen.EvalTables.
 Local Open Scope string_scope.
 
 (* ---- purity ---- *)
@@ -337,3 +337,146 @@ Theorem C10_call_twice : forall fuel vs sc fn args v sc',
   exists sc'', eval fuel vs sc' (ECall fn args) = Ok (v, sc'') /\ (forall x, sget x sc'' = sget x sc).
 Proof. exact call_twice. Qed.
 Print Assumptions C10_call_twice.
+
+(* ---- dispatch per EVALUATION, not per node (deepen round 3, second pass) ---- *)
+(* the function applied to `l op r` is chosen from the operator and the kinds of the two evaluated operands, nothing else *)
+Theorem C10_dispatch_depends_on_operand_kinds_only : forall op l r l' r',
+  kind_of l = kind_of l' -> kind_of r = kind_of r' -> select_vfun op l r = select_vfun op l' r'.
+Proof. exact dispatch_depends_on_operand_kinds_only. Qed.
+Print Assumptions C10_dispatch_depends_on_operand_kinds_only.
+
+(* ... and the choice is made at every evaluation, in whatever scope and after whatever earlier evaluations of the node *)
+Theorem C10_binexpr_dispatch_per_evaluation : forall ev op sc lhs rhs sv l sc1 r sc2,
+  assoc binop_eqb op strategy_table = Some SDefault ->
+  ev sc lhs = Ok (l, sc1) -> ev sc1 rhs = Ok (r, sc2) ->
+  eval_binexpr ev sc op lhs rhs sv =
+  match select_vfun op l r with
+  | Some f => v <- apply_vfun f l r ;; Ok (v, sc2)
+  | None => Panic
+  end.
+Proof. exact binexpr_dispatch_per_evaluation. Qed.
+Print Assumptions C10_binexpr_dispatch_per_evaluation.
+
+Theorem C10_ne_dispatch_per_evaluation : forall ev sc lhs rhs sv l sc1 r sc2,
+  ev sc lhs = Ok (l, sc1) -> ev sc1 rhs = Ok (r, sc2) ->
+  eval_binexpr ev sc OpNE lhs rhs sv =
+  match select_vfun OpEQ l r with
+  | Some f => v <- apply_vfun f l r ;; n <- unary_neg v ;; Ok (n, sc2)
+  | None => Panic
+  end.
+Proof. exact ne_dispatch_per_evaluation. Qed.
+Print Assumptions C10_ne_dispatch_per_evaluation.
+
+Theorem C10_iteration_dispatch_per_evaluation : forall ev op sc lhs rhs sv l sc1,
+  assoc binop_eqb op strategy_table = Some SLhsOverRhs ->
+  ev sc lhs = Ok (l, sc1) ->
+  eval_binexpr ev sc op lhs rhs sv =
+  match select_efun op l with
+  | Some f => '(r, sc2) <- apply_efun ev f sc1 l sv rhs ;;
+              sc3 <- after_iteration where_flatten_scopevar sv (sget sv sc1) sc2 ;; Ok (r, sc3)
+  | None => Panic
+  end.
+Proof. exact iteration_dispatch_per_evaluation. Qed.
+Print Assumptions C10_iteration_dispatch_per_evaluation.
+
+Theorem C10_iteration_dispatch_depends_on_kinds_only : forall op l l',
+  kind_of l = kind_of l' -> contained_kind l = contained_kind l' -> select_efun op l = select_efun op l'.
+Proof. exact iteration_dispatch_depends_on_kinds_only. Qed.
+Print Assumptions C10_iteration_dispatch_depends_on_kinds_only.
+
+Theorem C10_unary_dispatch_per_evaluation : forall ev vs sc op arg v sc1,
+  ev sc arg = Ok (v, sc1) ->
+  step ev vs sc (EUn op arg) = match select_ufun op with Some f => r <- apply_ufun f v ;; Ok (r, sc1) | None => Panic end.
+Proof. exact unary_dispatch_per_evaluation. Qed.
+Print Assumptions C10_unary_dispatch_per_evaluation.
+
+(* one node evaluated twice, in any two scopes: equal operand values give equal results *)
+Theorem C10_same_node_same_operands_same_value : forall ev op lhs rhs sv sc sc' l r sc1 sc2 sc1' sc2',
+  assoc binop_eqb op strategy_table = Some SDefault ->
+  ev sc lhs = Ok (l, sc1) -> ev sc1 rhs = Ok (r, sc2) ->
+  ev sc' lhs = Ok (l, sc1') -> ev sc1' rhs = Ok (r, sc2') ->
+  match eval_binexpr ev sc op lhs rhs sv, eval_binexpr ev sc' op lhs rhs sv with
+  | Ok (v, _), Ok (v', _) => v = v'
+  | Panic, Panic | Unmodelled, Unmodelled | OutOfFuel, OutOfFuel => True
+  | _, _ => False
+  end.
+Proof. exact same_node_same_operands_same_value. Qed.
+Print Assumptions C10_same_node_same_operands_same_value.
+
+(* comparison with null, through the current table *)
+Theorem C10_sem_eq_null : forall ev sc lhs rhs sv l sc1 r sc2,
+  ev sc lhs = Ok (l, sc1) -> ev sc1 rhs = Ok (r, sc2) ->
+  (kind_of l = KNull /\ kind_of r = KNull -> eval_binexpr ev sc OpEQ lhs rhs sv = Ok (VBool true, sc2)) /\
+  ((kind_of l = KString \/ kind_of l = KInt \/ kind_of l = KList) /\ kind_of r = KNull ->
+     eval_binexpr ev sc OpEQ lhs rhs sv = Ok (VBool false, sc2)) /\
+  (kind_of l = KNull /\ (kind_of r = KString \/ kind_of r = KInt) -> eval_binexpr ev sc OpEQ lhs rhs sv = Ok (VBool false, sc2)).
+Proof. exact sem_eq_null. Qed.
+Print Assumptions C10_sem_eq_null.
+
+(* obligation against the source: nothing an evaluation could remember a node by *)
+Theorem C10_eval_keeps_no_per_node_state :
+  expr_eval_fields = [("txApp", FuRead); ("exprStack", FuStack); ("logger", FuRead); ("dbg", FuWritten ["EvaluateApp"; "exprEval.eval"])]
+  /\ forallb (fun p => match snd p with PvNeverWritten => true | PvWritten _ => false end) eval_package_vars = true
+  /\ eval_ast_writes = []
+  /\ forallb (fun w => map_write_ok (snd w)) eval_map_writes = true
+  /\ eval_scope_keys = ["""."""; "binexpr.Scopevar"; "k"; "name"; "params[i].Name"; "parse.TemplateImpliedResult"; "scopeVar";
+                        "ss.Let.Name"; "x.Name"; "x.Transform.Scopevar"].
+Proof. exact eval_keeps_no_per_node_state. Qed.
+Print Assumptions C10_eval_keeps_no_per_node_state.
+
+(* ---- `set of` transforms: no two equal results over a list or a set; over the entries of a MAP the real code keeps
+        them (known finding set-transform-over-map-keeps-duplicates), and so does the model ---- *)
+Theorem C10_set_typed_transform_no_duplicates_partial : forall ev sc arg sv ss v sc' xs sc0,
+  is_dot_name arg = false ->
+  (ev sc arg = Ok (VList xs, sc0) \/ ev sc arg = Ok (VSet xs, sc0)) ->
+  eval_transform ev sc arg sv ss TySet = Ok (v, sc') ->
+  exists out, v = VSet out /\ NoDup out.
+Proof. exact set_typed_transform_no_duplicates. Qed.
+Print Assumptions C10_set_typed_transform_no_duplicates_partial.
+
+Theorem C10_set_typed_transform_over_map_refuted :
+  exists fuel vs sc e out sc', eval fuel vs sc e = Ok (VSet out, sc') /\ ~ NoDup out.
+Proof. exact set_typed_transform_over_map_refuted. Qed.
+Print Assumptions C10_set_typed_transform_over_map_refuted.
+
+(* ---- fuel: a closed-form bound, and termination of non-recursive views for every input (deepen round 3, second pass) ---- *)
+(* fuel counts nesting: an expression whose evaluation nests at most n deep (sub-expressions and bodies of called views)
+   never runs out of n units, in any scope *)
+Theorem C10_fits_never_out_of_fuel : forall vs n e, fits vs n e -> forall sc, eval n vs sc e <> OutOfFuel.
+Proof. exact fits_never_out_of_fuel. Qed.
+Print Assumptions C10_fits_never_out_of_fuel.
+
+(* views whose calls go strictly down a rank below k: depth of the expression + k * depth of the deepest body suffices *)
+Theorem C10_nonrecursive_fits : forall vs rank k, ranked vs rank ->
+  (forall name v, assoc String.eqb name vs = Some v -> rank name < k) ->
+  forall e, fits vs (edepth e + k * max_body_depth vs) e.
+Proof. exact nonrecursive_fits. Qed.
+Print Assumptions C10_nonrecursive_fits.
+
+(* the closed formula fuel_bound vs e = edepth e + length vs * max_body_depth vs, for a view set the executable test
+   accepts (every view calls only views standing earlier in the list): no hypothesis on scope, values or fuel *)
+Theorem C10_nonrecursive_terminates : forall vs, nonrec_b vs = true ->
+  forall e sc fuel, fuel_bound vs e <= fuel -> eval fuel vs sc e <> OutOfFuel.
+Proof. exact nonrecursive_terminates. Qed.
+Print Assumptions C10_nonrecursive_terminates.
+
+Theorem C10_nonrecursive_view_terminates : forall vs name v, nonrec_b vs = true -> assoc String.eqb name vs = Some v ->
+  forall sc, exists r, evaluate_view (fuel_bound vs (v_body v)) vs name sc = r /\ r <> OutOfFuel.
+Proof. exact nonrecursive_view_terminates. Qed.
+Print Assumptions C10_nonrecursive_view_terminates.
+
+(* the hypothesis is needed: a self-recursive view that never reaches a base case runs out of every fuel *)
+Theorem C10_recursive_view_runs_out : forall fuel sc, eval fuel loop_views sc (ECall "L" [ELit (VInt 0)]) = OutOfFuel.
+Proof. exact recursive_view_runs_out. Qed.
+Print Assumptions C10_recursive_view_runs_out.
+
+(* ---- the caller's scope as a whole: every variable the caller had bound keeps its value, unless a `let` of the view's
+        own body takes a caller-bound name (the carve-out is exactly the known finding caller-binding-rebound-by-let) ---- *)
+Theorem C10_evaluate_view_pure_full : forall fuel vs name vw sc v sc',
+  assoc String.eqb name vs = Some vw ->
+  evaluate_view fuel vs name sc = Ok (v, sc') ->
+  (forall x, In x (lets (v_body vw)) -> sget x sc = None) ->
+  sget implied_result sc = None ->
+  forall x val, sget x sc = Some val -> sget x sc' = Some val.
+Proof. exact evaluate_view_pure_full. Qed.
+Print Assumptions C10_evaluate_view_pure_full.
